@@ -263,17 +263,17 @@ theorem processBlocks_utxos (env : Env) : ∀ (blobs : List String) (s s1 : Stat
 
 /-- **`insert_next_block_headers` is a sequence of `insertNext` steps** for the headers it
     stores (no other change at all). -/
-theorem insertNextHeaders_sim (bound : Unstable.BoundFn) (env : Env) (G : List Block) :
-    ∀ (raws : List String) (s s1 : State), insertNextHeaders env s raws = some s1 →
-      (∀ h ∈ insertedHeaders env s raws, h.hash ∉ s.unstable.tree.blocks.map CBlock.hash) →
-      FrameRun bound (s, G) ((insertedHeaders env s raws).map Op.insertNext) (s1, G)
+theorem insertNextHeadersAll_sim (bound : Unstable.BoundFn) (env : Env) (G : List Block) :
+    ∀ (raws : List String) (s s1 : State), insertNextHeadersAll env s raws = some s1 →
+      (∀ h ∈ insertedHeadersAll env s raws, h.hash ∉ s.unstable.tree.blocks.map CBlock.hash) →
+      FrameRun bound (s, G) ((insertedHeadersAll env s raws).map Op.insertNext) (s1, G)
   | [], s, s1, h, _ => by
-    simp only [insertNextHeaders, Option.some.injEq] at h
+    simp only [insertNextHeadersAll, Option.some.injEq] at h
     subst h
     exact FrameRun.nil _
   | raw :: rest, s, s1, h, ht => by
-    unfold insertNextHeaders at h
-    unfold insertedHeaders at ht ⊢
+    unfold insertNextHeadersAll at h
+    unfold insertedHeadersAll at ht ⊢
     cases hd : env.dec.header raw with
     | none =>
       rw [hd] at h
@@ -285,7 +285,7 @@ theorem insertNextHeaders_sim (bound : Unstable.BoundFn) (env : Env) (G : List B
       simp only [hd] at h ht ⊢
       by_cases hk : (s.unstable.next.getHeader hdr.hash).isSome = true
       · simp only [hk, if_true] at h ht ⊢
-        exact insertNextHeaders_sim bound env G rest s s1 h ht
+        exact insertNextHeadersAll_sim bound env G rest s s1 h ht
       · simp only [hk, Bool.false_eq_true, if_false] at h ht ⊢
         cases hc : validationContextWithNext s (hdrOfNext hdr) with
         | error e =>
@@ -320,11 +320,18 @@ theorem insertNextHeaders_sim (bound : Unstable.BoundFn) (env : Env) (G : List B
                 simp only [step2, step, hk, Bool.false_eq_true, if_false, hi]
               refine FrameRun.op (s, G) (.insertNext hdr) _ _ (s1, G)
                 (ht hdr List.mem_cons_self) hstep ?_
-              refine insertNextHeaders_sim bound env G rest _ s1 h ?_
+              refine insertNextHeadersAll_sim bound env G rest _ s1 h ?_
               intro x hx
               show x.hash ∉ u.tree.blocks.map CBlock.hash
               rw [htree]
               exact ht x (List.mem_cons_of_mem _ hx)
+
+/-- the same for the loop with the instruction check: only the first `env.headerSlots` blobs -/
+theorem insertNextHeaders_sim (bound : Unstable.BoundFn) (env : Env) (G : List Block)
+    (raws : List String) (s s1 : State) (h : insertNextHeaders env s raws = some s1)
+    (ht : ∀ h ∈ insertedHeaders env s raws, h.hash ∉ s.unstable.tree.blocks.map CBlock.hash) :
+    FrameRun bound (s, G) ((insertedHeaders env s raws).map Op.insertNext) (s1, G) :=
+  insertNextHeadersAll_sim bound env G _ s s1 h ht
 
 /-! ### `maybe_process_response` and the fee percentiles -/
 
